@@ -1,19 +1,31 @@
-(* Running AArch64 code with the heap invariant of Sem/HeapCheck.v evaluated at every
-   statement-boundary marker (labels "#m<kinds>" inserted by the marked model of the code
-   generator, Model/A64.a64_compile_marked; the unmarked model output is compared with the Rust
-   output by `codegen-a64`).  Also measures what C10 needs: the peak number of blocks in use and
-   the final frontier.  Port of Sem/X86Heap.v. *)
+(* Running AArch64 code on Sem/A64Sem.v with the heap invariant of Sem/HeapCheck.v evaluated at every
+   statement boundary.  Port of Sem/X86Heap.v (ISA-independent part: Sem/HeapLock.v).  Boundaries:
+     "#s…"       the implementation's own statement comments kept as pseudo-labels by
+                 Model/A64Io.g_acodes_s: the REAL instruction list runs in lockstep with the AxCut
+                 linear machine, whose trace (Sem/AxTrace.trace_linear) supplies the kinds of the
+                 environment and thereby the roots;
+     "#m<kinds>" marks of the marked model of the code generator (Model/A64.a64_compile_marked).
+   Allocator state of this back end (config.rs): HEAP = X0 heads the reuse list, FREE = X1 the
+   deferred list; blocks of 64 bytes, header at offset 0, pointer slots at 16/32/48; a variable at
+   environment position i owns temporaries 2i, 2i+1 = registers X(RESERVED + 2i ..) while they last
+   (13 variables), spill slots [SP + stack_offset p] beyond.  A root is the FIRST temporary of a
+   position of kind p.
+   Also measured: peak number of blocks in use, final frontier (C10), and `events` = number of
+   executions of `acquire_block` INTO A SPILL SLOT (the instruction STR HEAP, [SP, _], emitted only
+   there) while the reuse list has a second element (header of the block at HEAP non-zero): the
+   path on which the refcount of the acquired block is initialised through TEMP. *)
 From Coq Require Import List ZArith NArith String Ascii Bool FMapPositive.
-From SCC Require Import Base.Sexp Lang.AxSyn Sem.AxSem Model.Backend Model.A64 Sem.A64Sem Sem.HeapCheck.
+From SCC Require Import Base.Sexp Lang.AxSyn Sem.AxSem Model.Backend Model.A64 Sem.A64Sem Sem.HeapCheck Sem.HeapLock.
 Import ListNotations.
 Open Scope string_scope.
 Open Scope Z_scope.
 
+Definition hword (s : astate) (a : Z) : Z := match PM.find (key a) (A64Sem.heap s) with Some z => z | None => 0 end.
+
 Definition view_of (s : astate) : option heap_view :=
   match rget s HEAP, rget s FREE with
   | Some h, Some f =>
-      Some {| rd := fun a => match PM.find (key a) (A64Sem.heap s) with Some z => z | None => 0 end;
-              base := HEAP_BASE; limit := HEAP_BASE + HEAP_SIZE; hv_heap := h; hv_free := f; hv_high := hw s |}
+      Some {| rd := hword s; base := HEAP_BASE; limit := HEAP_BASE + HEAP_SIZE; hv_heap := h; hv_free := f; hv_high := hw s |}
   | _, _ => None
   end.
 
@@ -35,29 +47,36 @@ Fixpoint roots_of (s : astate) (sp : Z) (kinds : string) (pos : N) : option (lis
       end
   end.
 
-Record hstats := { boundaries : N; peak_in_use : Z; last_frontier : Z; first_violation : option string }.
-Definition hstats0 : hstats := {| boundaries := 0; peak_in_use := 0; last_frontier := HEAP_BASE; first_violation := None |}.
+Definition look (s : astate) (kinds : string) : option (heap_view * option (list Z)) :=
+  match spv s, view_of s with
+  | Some sp, Some v => Some (v, roots_of s sp kinds 0)
+  | _, _ => None
+  end.
 
-Definition at_mark (s : astate) (kinds : string) (st : hstats) : hstats :=
-  match first_violation st with
-  | Some _ => st
-  | None =>
-      let fail why := {| boundaries := boundaries st + 1; peak_in_use := peak_in_use st; last_frontier := last_frontier st;
-                         first_violation := Some why |} in
-      match spv s, view_of s with
-      | Some sp, Some v =>
-          match roots_of s sp kinds 0 with
-          | None => fail "a live object variable holds an undefined pointer"
-          | Some roots =>
-              match inv_check v roots with
-              | inr why => fail why
-              | inl rep =>
-                  {| boundaries := boundaries st + 1;
-                     peak_in_use := Z.max (peak_in_use st) (Z.of_nat (List.length (hr_counted rep) + List.length (hr_fl rep)));
-                     last_frontier := hr_frontier rep; first_violation := None |}
-              end
-          end
-      | _, _ => fail "heap or free register undefined at a statement boundary"
+Definition hard_path (c : acode) (s : astate) : bool :=
+  match c with
+  | STR r SP _ => areg_eqb r HEAP && match rget s HEAP with Some h => negb (hword s h =? 0) | None => false end
+  | _ => false
+  end.
+
+Definition hstats0 : hstats := hstats_with HEAP_BASE [].
+
+(* An indirect branch goes to a byte address, which Sem/A64Sem resolves to the instruction there; marks
+   (size 0) placed between the label whose address was taken and that instruction would be skipped
+   (single-clause closure with an empty environment: LAB method; "#s…"; first instruction).  A mark is
+   always the first item of a statement's code and is preceded either by the instructions of the
+   previous statement or by a label, so the marks directly in front of the target belong to the path
+   through that label: an indirect branch lands on the first of them. *)
+Fixpoint back_over_marks (fuel : nat) (im : image) (i : positive) : positive :=
+  match fuel with
+  | O => i
+  | S f =>
+      match i with
+      | xH => i
+      | _ => match PM.find (Pos.pred i) (code im) with
+             | Some (LAB l) => if is_mark_label l then back_over_marks f im (Pos.pred i) else i
+             | _ => i
+             end
       end
   end.
 
@@ -70,12 +89,12 @@ Fixpoint hrun_chunk (fuel : nat) (im : image) (pc : positive) (s : astate) (st :
       | None => HFinished (finish (out s) (OStuck "fell-off-the-end")) s st
       | Some c =>
           let st' := match c with
-                     | LAB (String "#"%char (String "m"%char kinds)) => at_mark s kinds st
-                     | _ => st
+                     | LAB l => at_label (look s) l st
+                     | _ => if hard_path c s then add_event st else st
                      end in
           match step im c s with
           | Next s' => hrun_chunk f im (Pos.succ pc) s' st'
-          | Jump s' i => hrun_chunk f im i s' st'
+          | Jump s' i => hrun_chunk f im (match c with BR _ => back_over_marks 4 im i | _ => i end) s' st'
           | Done s' => HFinished (finish (out s') (final_check s')) s' st'
           | Fault w s' => HFinished (finish (out s') (OStuck w)) s' st'
           | Undefd w s' => HFinished (finish (out s') (OUndef w)) s' st'
@@ -91,9 +110,14 @@ Fixpoint hrun (outer inner : nat) (im : image) (pc : positive) (s : astate) (st 
       | HMore pc' s' st' => hrun o inner im pc' s' st'
       end
   end.
-Definition run_a64_heap (outer inner : nat) (cs : list acode) (args : list Z) : obs * astate * hstats :=
+(* tr = the kind strings the "#s" marks consume ([] when the code carries "#m" marks only) *)
+Definition run_a64_heap_tr (outer inner : nat) (cs : list acode) (args : list Z) (tr : list string) : obs * astate * hstats :=
   let im := mk_image cs in
   match find_label (labels im) "asm_main" with
   | None => ((([] : prints), OStuck "no-asm_main"), init_state args, hstats0)
-  | Some i => hrun outer inner im i (init_state args) hstats0
+  | Some i =>
+      if Nat.ltb 7 (List.length args) then ((([] : prints), OStuck "too-many-arguments"), init_state args, hstats0)
+      else hrun outer inner im i (init_state args) (hstats_with HEAP_BASE tr)
   end.
+Definition run_a64_heap (outer inner : nat) (cs : list acode) (args : list Z) : obs * astate * hstats :=
+  run_a64_heap_tr outer inner cs args [].
